@@ -1,7 +1,7 @@
 (* C15 -- visiting a WHOLE predicate with a substituting SimplePredicateVisitor (Model/PredVisitCheck.v: the regenerated
    apply_logical_* helpers composed as PredicateVisitor._visit_logical_and/_or/_not composes them):
-   when no replaced atom occurs under a NOT, the rebuilt predicate has exactly the value of the original under the
-   substituted assignment.  (With a replaced atom under NOT it does not: Proofs/PredProofsV.v apply_not_refuted.) *)
+   the rebuilt predicate has exactly the value of the original under the substituted assignment, for EVERY substitution
+   (replaced atoms under a NOT included, since /repo 33efa74; Proofs/PredProofsV.v apply_not_sound_p). *)
 From Coq Require Import NArith List Bool Lia.
 From V Require Import Base.Tri Model.Pred Model.PredCheck Gen.PredGen Gen.PredVisitGen Model.PredVisitCheck
   Proofs.PredProofs Proofs.PredProofsV.
@@ -10,10 +10,6 @@ Import ListNotations.
 (* the assignment after substitution *)
 Definition subst_val (v : atom -> tri) (s : list (atom * cnf)) (a : atom) : tri :=
   match sub_of s a with Some r => eval3 v r | None => v a end.
-(* no replaced atom under a NOT *)
-Definition lit_ok (s : list (atom * cnf)) (l : lit) : Prop :=
-  match l with Neg a => sub_of s a = None | Pos _ => True end.
-Definition neg_free (s : list (atom * cnf)) (p : cnf) : Prop := forall g l, In g p -> In l g -> lit_ok s l.
 
 Lemma fold_left_or : forall l x, fold_left tri_or l x = tri_or x (fold_right tri_or FF l).
 Proof.
@@ -29,11 +25,14 @@ Qed.
 Lemma combine_map_r : forall {A B} (f : A -> B) (l : list A), combine l (map f l) = map (fun x => (x, f x)) l.
 Proof. intros A B f l. induction l as [|x l IH]; cbn; [reflexivity|now rewrite IH]. Qed.
 
-Lemma leaf_val : forall v s l, lit_ok s l -> res_val v l (visit_leaf s l) = lit_eval (subst_val v s) l.
+Lemma leaf_val : forall v s l, res_val v l (visit_leaf s l) = lit_eval (subst_val v s) l.
 Proof.
-  intros v s [a|a] H; cbn [visit_leaf lit_eval]; unfold subst_val.
+  intros v s [a|a]; cbn [visit_leaf lit_eval]; unfold subst_val.
   - destruct (sub_of s a); reflexivity.
-  - cbn in H. rewrite H. reflexivity.
+  - destruct (sub_of s a) as [r|] eqn:E; [|reflexivity].
+    destruct (py_apply_logical_not a (Some r)) as [r'|] eqn:R.
+    + cbn [res_val]. eapply apply_not_sound_p; eauto.
+    + unfold py_apply_logical_not in R. discriminate.
 Qed.
 
 Lemma any3_fold : forall v g, any3 v g = fold_right tri_or FF (map (lit_eval v) g).
@@ -42,11 +41,11 @@ Proof. intros v g. unfold any3. induction g as [|l g IH]; cbn [fold_right map]; 
 Definition group_val (v : atom -> tri) (s : list (atom * cnf)) (g : list lit) : tri :=
   match visit_group s g with Some r => eval3 v r | None => any3 v g end.
 
-Lemma group_sound : forall v s g, (forall l, In l g -> lit_ok s l) -> group_val v s g = any3 (subst_val v s) g.
+Lemma group_sound : forall v s g, group_val v s g = any3 (subst_val v s) g.
 Proof.
-  intros v s g H. unfold group_val, visit_group.
+  intros v s g. unfold group_val, visit_group.
   assert (E : map (fun l => res_val v l (visit_leaf s l)) g = map (lit_eval (subst_val v s)) g).
-  { apply map_ext_in. intros l Hl. apply leaf_val. now apply H. }
+  { apply map_ext. intros l. apply leaf_val. }
   destruct (py_apply_logical_or g (map (visit_leaf s) g)) as [r|] eqn:R.
   - rewrite (apply_or_sound_p v _ _ _ R). unfold or_all3. rewrite fold_left_or, tri_or_FF_l.
     rewrite combine_map_r, map_map. cbn [fst snd]. now rewrite E, any3_fold.
@@ -66,14 +65,14 @@ Qed.
 Lemma eval3_fold : forall v (p : cnf), eval3 v p = fold_right tri_and TT (map (any3 v) p).
 Proof. intros v p. unfold eval3. induction p as [|g p IH]; cbn [fold_right map]; [reflexivity|now rewrite IH]. Qed.
 
-Lemma visit_pred_sound_p : forall v s p, neg_free s p ->
+Lemma visit_pred_sound_p : forall v s p,
   eval3 v (match visit_pred s p with Some r => r | None => p end) = eval3 (subst_val v s) p.
 Proof.
-  intros v s p NF. unfold visit_pred.
+  intros v s p. unfold visit_pred.
   set (res := map (fun g => match visit_group s g with Some r => Some (false, r) | None => None end) p).
   assert (E : map (fun ox => res_val_group v (fst ox) (snd ox)) (combine p res) = map (any3 (subst_val v s)) p).
   { unfold res. rewrite combine_map_r, map_map. cbn [fst snd]. apply map_ext_in. intros g Hg.
-    rewrite <- (group_sound v s g) by (intros l Hl; eapply NF; eauto).
+    rewrite <- (group_sound v s g).
     unfold group_val. destruct (visit_group s g); reflexivity. }
   destruct (py_apply_logical_and p res) as [r|] eqn:R.
   - rewrite (apply_and_sound_p v _ _ _) with (2 := R).
